@@ -18,20 +18,24 @@ NONTRIVIAL_RULE = ('non-trivial = every call of the case returned an array and a
                    '(True or "recursive") answered at least one cell from its cache (rule calls < N*(T-1)); '
                    'distinct = distinct case dicts')
 EXHAUSTIVE = {'quick': False, 'thorough': False}
-ASSUMPTIONS = ['rules are pure (Lin family: sum(w_i * n_i) mod k) and their results fit the automaton dtype (store = identity)',
+ASSUMPTIONS = ['rules are pure (Lin: sum(w_i * n_i) mod k; Aff: (sum(w_i * n_i) + b) mod k, b != 0, one third of the cases) and their '
+               'results fit the automaton dtype (store = identity)',
                'float automata carry integer-valued floats',
                'r outside 1..N and timesteps = 0 are outside the property and are not generated',
                'an unsupported option value must be rejected only when at least one step is attempted (the option is '
                'examined inside the loop body); any exception class counts as rejection']
-TRUSTED = ['Python twins Lin1 / Logged1 / PredLt of harness/twins.py']
+TRUSTED = ['Python twins Lin1 / Aff1 / Logged1 / PredLt of harness/twins.py']
 
 # hit-rate bookkeeping, reported through NOTES (the driver reads NOTES after the run)
 _STATS = {'True': [0, 0], 'recursive': [0, 0]}     # mode -> [rule calls, cells computed]
 NOTES = ['every (N, r) with 1 <= r <= N <= 9 and every T in 1..6 is enumerated in all three modes; quick: alphabet, '
          'fixed/callable and the shape of the initial row cycle; thorough: crossed completely',
-         'cache hit rate: (filled in by the run)']
+         'cache hit rate: (filled in by the run)',
+         'call sequences: history/* build a rule object per call (history/dtypes shares one); shared/* pass ONE rule object '
+         'to all 2-5 calls, which differ in radius (both orders), dtype (int8 <-> uint8 on aliasing bytes, int32 <-> int64), '
+         'memoize mode, on identical or overlapping rows; more than half of all sequences share the object']
 
-DTYPES = ['int64', 'int32', 'uint8', 'float64']
+DTYPES = ['int64', 'int32', 'uint8', 'float64']      # gen_shared also uses int8 (bytes aliasing uint8)
 BIASES = ['periodic', 'sparse', 'constant', 'random']
 
 # how the value passed as `memoize` is built, and its Coq counterpart
@@ -68,11 +72,18 @@ def init_row(rng, N, k, bias):
     return [rng.randrange(k) for _ in range(N)]
 
 
-def lin_rule(rng, r, k):
-    ws = [rng.randint(-2, 3) for _ in range(2 * r + 1)]
-    if all(w % k == 0 for w in ws):
-        ws[rng.randrange(len(ws))] = 1
+def pure_rule(rng, r, k, width=None):
+    """a pure rule over `width` (default 2r+1) weights: two thirds Lin (sum(w*x) mod k), one third Aff
+    ((sum(w*x) + b) mod k with b != 0 mod k, so that the all-zero neighbourhood does not map to 0)"""
+    ws = [rng.randint(-2, 3) for _ in range(width or 2 * r + 1)]
+    if all(w % k == 0 for w in ws[:3]):
+        ws[rng.randrange(min(3, len(ws)))] = 1
+    if rng.randrange(3) == 0:
+        return {'fam': 'aff', 'ws': ws, 'b': rng.randrange(1, k), 'm': k}
     return {'fam': 'lin', 'ws': ws, 'm': k}
+
+
+lin_rule = pure_rule
 
 
 def mk_call(rng, N, r, T, k, memo, dyn, bias, dtype='int64', H=1, rule=None):
@@ -153,6 +164,9 @@ def gen_histories(rng, tier):
                 c['dtype'] = rng.choice(DTYPES)
                 if rng.random() < 0.3:
                     c['rule'] = lin_rule(rng, r, k)
+                    c.pop('obj', None)
+                else:
+                    base['obj'] = c['obj'] = 0       # the same rule OBJECT as the first call
             else:
                 c = mk_call(rng, N, r, rng.randint(2, 5), k, MODE_FORM[rng.choice(['memo', 'recursive', 'plain'])],
                             rng.random() < 0.3, rng.choice(BIASES), rng.choice(DTYPES),
@@ -163,10 +177,71 @@ def gen_histories(rng, tier):
         yield {'kind': 'history/%s/%d' % (flavour, ncalls), 'calls': calls}
 
 
+def _alias_rows(rng, N):
+    """the same bytes read as int8 and as uint8: -1 / 255, -2 / 254, and small non-negative values"""
+    signed = [rng.choice([-1, -1, -2, 0, 1, 2]) for _ in range(N)]
+    if all(v >= 0 for v in signed):
+        signed[rng.randrange(N)] = -1
+    return signed, [v % 256 for v in signed]
+
+
+def gen_shared(rng, tier):
+    """(c') 2-5 evolve calls back to back that are all given ONE rule object (key 'obj'), consecutive calls
+    differing in the radius (larger then smaller and vice versa), in the dtype (int8 <-> uint8 on states whose
+    bytes alias, int32 <-> int64) and / or in the memoize mode, on identical or overlapping initial states.
+    The model of each call is unchanged (fresh cache per call): anything that survives a call and is found
+    again through the rule object, the radius, the mode or the key bytes shows up as a disagreement."""
+    n = 320 if tier == 'quick' else 3000
+    flavours = ['radius', 'alias8', 'width3264', 'mode', 'repeat', 'mixed']
+    for j in range(n):
+        flavour = flavours[j % len(flavours)]
+        ncalls = rng.randint(2, 5)
+        N = rng.randint(2, 12)
+        k = rng.choice([3, 5]) if flavour in ('alias8', 'mixed') else rng.choice([2, 3])
+        rmax = min(N, 4)
+        radii = [rng.randint(1, rmax) for _ in range(ncalls)]
+        if flavour == 'radius':
+            a, b = rng.sample(range(1, rmax + 1), 2) if rmax >= 2 else (1, 1)
+            radii = [(a, b)[i % 2] for i in range(ncalls)]          # larger then smaller, or the reverse
+        elif flavour != 'mixed':
+            radii = [radii[0]] * ncalls
+        rule = pure_rule(rng, max(radii), k, width=2 * max(radii) + 1)   # the twin reads the first 2r+1 weights
+        T = rng.randint(2, 6)
+        modes = [rng.choice(['memo', 'recursive'])] * ncalls
+        if flavour in ('mode', 'mixed'):
+            modes = [rng.choice(['memo', 'recursive', 'recursive', 'plain']) for _ in range(ncalls)]
+        elif flavour == 'radius':
+            modes = [rng.choice(['recursive', 'recursive', 'memo'])] * ncalls
+        base_row = init_row(rng, N, k if flavour != 'alias8' else 2, rng.choice(BIASES))
+        signed, unsigned = _alias_rows(rng, N)
+        calls = []
+        for i in range(ncalls):
+            row, dtype = list(base_row), 'int64'
+            if flavour == 'alias8' or (flavour == 'mixed' and rng.random() < 0.4):
+                first_signed = (j // len(flavours)) % 2 == 0
+                if (i % 2 == 0) == first_signed:
+                    row, dtype = list(signed), 'int8'
+                else:
+                    row, dtype = list(unsigned), 'uint8'
+            elif flavour == 'width3264' or (flavour == 'mixed' and rng.random() < 0.4):
+                dtype = ('int32', 'int64')[(i + j) % 2]
+                if dtype == 'int32' and rng.random() < 0.5:
+                    # an int32 row whose bytes are those of the int64 row (little endian: value, 0, value, 0, ..)
+                    row = [v for x in base_row for v in (x, 0)]
+            if flavour in ('radius', 'mode', 'mixed') and i > 0 and rng.random() < 0.4:
+                row[rng.randrange(len(row))] = rng.randrange(k)      # overlapping, not identical
+            r = min(radii[i], len(row))
+            calls.append({'rule': rule, 'memo': MODE_FORM[modes[i]], 'r': r, 'hist': [row], 'dtype': dtype,
+                          'ts': ['lt', T] if rng.random() < 0.2 else ['fixed', T if flavour != 'mixed' else rng.randint(2, 6)],
+                          'obj': 0})
+        yield {'kind': 'shared/%s/%d' % (flavour, ncalls), 'calls': calls}
+
+
 def generate(rng, tier):
     yield from gen_sweep(rng, tier)
     yield from gen_options(rng, tier)
     yield from gen_histories(rng, tier)
+    yield from gen_shared(rng, tier)
     yield from gen_random(rng, tier)
 
 
@@ -184,26 +259,36 @@ def _to_int_rows(out):
     return [[int(x) for x in row] for row in rows]
 
 
-def run_call(cpl, call, memo_value, logged=None):
-    """one evolve call on the implementation; returns (obs, number of rule calls, log)"""
+def run_call(cpl, call, memo_value, rule=None):
+    """one evolve call on the implementation; `rule` = an existing Logged1 object to pass again (its log is
+    sliced), or None for a fresh one.  Returns (obs, number of rule calls of THIS call, their log)"""
     ca = np.array(call['hist'], dtype=call['dtype'])
-    rule = Logged1(make_rule(call['rule']))
+    if rule is None:
+        rule = Logged1(make_rule(call['rule']))
+    start = len(rule.log)
     kind, T = call['ts']
     ts = PredLt(T) if kind == 'lt' else T
     res = call_impl(lambda: cpl.evolve(ca, timesteps=ts, apply_rule=rule, r=call['r'], memoize=memo_value))
+    log = rule.log[start:]
     if res[0] != 'ok':
-        return list(res), len(rule.log), rule.log
-    return ['ok', _to_int_rows(res[1])], len(rule.log), rule.log
+        return list(res), len(log), log
+    return ['ok', _to_int_rows(res[1])], len(log), log
 
 
 def run_impl(c):
     import cellpylib as cpl
     obs = []
+    objs = {}          # 'obj' key -> the one rule object passed to every call that carries the key
     for call in c['calls']:
-        o, ncalls, _ = run_call(cpl, call, MEMO_FORMS[call['memo']][0]())
+        rule = None
+        if 'obj' in call:
+            rule = objs.get(call['obj'])
+            if rule is None:
+                rule = objs[call['obj']] = Logged1(make_rule(call['rule']))
+        o, ncalls, _ = run_call(cpl, call, MEMO_FORMS[call['memo']][0](), rule)
         obs.append({'res': o, 'ncalls': ncalls})
     # the implementation's own unmemoised answers, for the oracle (after the sequence, so that the
-    # sequence itself is not disturbed)
+    # sequence itself is not disturbed; fresh rule objects)
     for call, ob in zip(c['calls'], obs):
         if call['memo'] in VALID and call['memo'] != 'false':
             o, _, _ = run_call(cpl, call, False)
